@@ -80,6 +80,8 @@ func DecProgs(s string) ([]Prog, error) {
 				p.Deadline = "future"
 			case o == "dp":
 				p.Deadline = "past"
+			case strings.HasPrefix(o, "ds"):
+				p.DlSeq = o[2:]
 			case len(o) >= 2 && o[0] == 'v' && o[1] >= '1' && o[1] <= '6':
 				ts, err := DecToks(o[2:])
 				if err != nil {
